@@ -86,14 +86,12 @@ func c14(c *Ctx) {
 		c.R.Check(setInact != nil && cfgx.ReachesInIteration(setInact, deact) && setInact.Block().Dominates(deact.Block()) && sameRecv(setInact, cfgx.CallArgs(deact)[1]), site(deact)+" applies-inactive", c.pos(deact.Pos()), "the revision applied in the loop was just set Inactive", "the revision applied in the loop is not the one set Inactive")
 		// skip whitelist: name == current, or state != Active
 		var notActive []cfgx.Edge
-		for _, b := range rec.Blocks {
-			for _, in := range b.Instrs {
-				if bo, ok := in.(*ssa.BinOp); ok && bo.Op == token.EQL && loop[b] && hasSuffixCall(bo.X, ".GetDesiredState") {
-					if s, ok := cfgx.ConstString(bo.Y); ok && s == "Active" {
-						_, f := cfgx.CondEdges(bo)
-						notActive = append(notActive, f...)
-					}
-				}
+		for _, cf := range findCmps(rec, true, func(x, y ssa.Value) bool {
+			s, ok := cfgx.ConstString(y)
+			return ok && s == "Active" && hasSuffixCall(x, ".GetDesiredState")
+		}) {
+			if loop[cf.Bin.Block()] {
+				notActive = append(notActive, cf.Fails...)
 			}
 		}
 		by, wb := cfgx.LoopBypass(loop, map[*ssa.BasicBlock]bool{deact.Block(): true}, union(nameEq, notActive), c.posf())
@@ -164,10 +162,18 @@ func c14(c *Ctx) {
 			if good {
 				// the carried value is max(old, revisionNum): back-edge leaves are the phi itself and GetRevision()
 				okMax := true
-				var cmp *ssa.BinOp
+				var cmp ssa.Instruction
 				for i, pred := range hdr.Preds {
 					if !loop[pred] {
 						continue
+					}
+					// builtin max(previous, rev.GetRevision())
+					if mc, ok := maxPhi.Edges[i].(*ssa.Call); ok && cfgx.CalleeName(mc) == "builtin.max" && len(mc.Call.Args) == 2 {
+						a, b := mc.Call.Args[0], mc.Call.Args[1]
+						if (a == ssa.Value(maxPhi) && hasSuffixCall(b, ".GetRevision")) || (b == ssa.Value(maxPhi) && hasSuffixCall(a, ".GetRevision")) {
+							cmp = mc
+							continue
+						}
 					}
 					for _, leaf := range leavesStoppingAt(maxPhi.Edges[i], maxPhi) {
 						if !hasSuffixCall(leaf, ".GetRevision") {
@@ -177,7 +183,7 @@ func c14(c *Ctx) {
 				}
 				for _, b := range rec.Blocks {
 					for _, in := range b.Instrs {
-						if x, ok := in.(*ssa.BinOp); ok && loop[b] && (x.Op == token.GTR || x.Op == token.LSS) && (x.X == ssa.Value(maxPhi) || x.Y == ssa.Value(maxPhi)) {
+						if x, ok := in.(*ssa.BinOp); ok && loop[b] && (x.Op == token.GTR || x.Op == token.LSS || x.Op == token.GEQ || x.Op == token.LEQ) && (x.X == ssa.Value(maxPhi) || x.Y == ssa.Value(maxPhi)) {
 							cmp = x
 						}
 					}
